@@ -19,6 +19,7 @@ func runC19(c *Check, tier string) {
 	ruleTraversals(c, "R19a", false)
 	// the one recursion that is not a marked traversal: it descends only into what is not yet materialised
 	ruleRerunOnlyWhenNeeded(c, "R19b")
+	ruleNoSplicedSubResults(c, "R19c")
 }
 
 type traversal struct {
